@@ -48,10 +48,27 @@ LISTS = {
 }
 ITERS = [1, 50, 300]
 
+# 5-attribute alphabet ('wide' jobs): cliques that overlap pairwise around one attribute, a chain and a star, under three
+# size assignments (the elimination / record-generation order depends on the sizes); cell indices are valid for every assignment
+WATTRS = ['m', 'a', 'x', 'b', 'y']
+WSIZES = {'s33322': [3, 3, 3, 2, 2], 's33232': [3, 3, 2, 3, 2], 's22332': [2, 2, 3, 3, 2]}
+WLISTS = {
+    'tri': [('m', 'a', 'x'), ('m', 'b', 'y'), ('m', 'a', 'b')],
+    'chain5': [('m', 'a'), ('a', 'x'), ('x', 'b'), ('b', 'y')],
+    'star': [('m', 'a'), ('m', 'x'), ('m', 'b'), ('m', 'y')],
+}
+WZEROS = {
+    'mx': {('m', 'x'): [(0, 0), (1, 1)]},
+    'max': {('m', 'a', 'x'): [(0, 1, 0), (1, 0, 1)]},
+    'xy-unmeasured': {('x', 'y'): [(0, 1)]},
+    'yb+m': {('y', 'b'): [(1, 0)], ('m',): [(1,)]},
+}
+
 
 def bounds(tier):
     return {'zero_specs': list(ZEROS), 'lists': list(LISTS), 'solvers': ['MD', 'RDA', 'IG'], 'iterations': ITERS,
-            'history_depth': 2 if tier == 'quick' else 3, 'warm_start': [False, True]}
+            'history_depth': 2 if tier == 'quick' else 3, 'warm_start': [False, True],
+            'wide': {'attrs': WATTRS, 'sizes': WSIZES, 'lists': list(WLISTS), 'zero_specs': list(WZEROS), 'iterations': [60]}}
 
 
 def jobs(tier, seed):
@@ -61,11 +78,15 @@ def jobs(tier, seed):
             out.append({'mode': 'single', 'zero': z, 'engine': eng, 'seed': seed})
             for warm in [False, True]:
                 out.append({'mode': 'history', 'zero': z, 'engine': eng, 'warm': warm, 'depth': 2 if tier == 'quick' else 3, 'seed': seed})
+    for z in WZEROS:
+        for eng in ['MD', 'RDA', 'IG']:
+            for sz in WSIZES:
+                out.append({'mode': 'wide', 'zero': z, 'engine': eng, 'sizes': sz, 'seed': seed})
     return out
 
 
-def zero_failures(model, zeros, with_synth=True):
-    attrs, sizes = M.ATTRS3, M.SIZES3
+def zero_failures(model, zeros, with_synth=True, attrs=None, sizes=None):
+    attrs, sizes = (M.ATTRS3, M.SIZES3) if attrs is None else (attrs, sizes)
     T = float(model.total)
     fails = []
 
@@ -141,6 +162,18 @@ def run_history(zero, engine, warm, iters, hist, seed, check_all=True, total=50.
     return fails
 
 
+def run_wide(zero, engine, sizes, listname, seed, iters=60, total=50.0):
+    from mbi import Domain, FactoredInference
+    M.deterministic_eigsh()
+    zeros = WZEROS[zero]
+    sz = WSIZES[sizes]
+    eng = FactoredInference(Domain(WATTRS, sz), iters=iters, structural_zeros={k: list(v) for k, v in zeros.items()})
+    prob = M.Problem(WATTRS, sz, WLISTS[listname], 0, 'pos', seed, total=total)
+    with M.quiet():
+        model = eng.estimate(prob.fresh_measurements(), total=total, engine=engine)
+    return zero_failures(model, zeros, attrs=WATTRS, sizes=sz)
+
+
 def report(acc, case, fails):
     acc.outcome('%s:%s' % (case['engine'], 'ok' if not fails else 'FAIL'))
     for kd in sorted({k for k, _ in fails}):
@@ -160,6 +193,16 @@ def run_job(job):
                 acc.transitions += 1
                 acc.traces += 1
                 report(acc, case, run_history(job['zero'], job['engine'], False, iters, [listname], job['seed'], total=total))
+        acc.sample(case)
+        return acc
+    if job['mode'] == 'wide':
+        for listname in WLISTS:
+            case = {'wide': True, 'zero': job['zero'], 'engine': job['engine'], 'sizes': job['sizes'], 'hist': [listname], 'iters': 60, 'seed': job['seed']}
+            acc.case(case)
+            acc.states += 1
+            acc.transitions += 1
+            acc.traces += 1
+            report(acc, case, run_wide(job['zero'], job['engine'], job['sizes'], listname, job['seed']))
         acc.sample(case)
         return acc
     # BFS over histories (a state is the history that reaches it)
@@ -184,7 +227,10 @@ def run_job(job):
 
 
 def replay(case):
-    fails = run_history(case['zero'], case['engine'], case['warm'], case['iters'], case['hist'], case['seed'], total=case.get('total', 50.0))
+    if case.get('wide'):
+        fails = run_wide(case['zero'], case['engine'], case['sizes'], case['hist'][0], case['seed'], iters=case['iters'])
+    else:
+        fails = run_history(case['zero'], case['engine'], case['warm'], case['iters'], case['hist'], case['seed'], total=case.get('total', 50.0))
     for k, m in fails:
         print(k, m)
     return [{'key': {'kind': k, 'engine': case['engine']}, 'msg': m} for k, m in fails]
